@@ -608,9 +608,12 @@ def _eng_cases(rng, tier):
         script += [("cmd", "FLUSH"), ("quiesce",)]
         low = rng.chance(1, 2)
         hot = rng.below(nctx)
-        m = rng.range(1, 3)
+        # fewer hot events than one memtable holds: they are certainly still in memory in the first run
+        m = rng.range(1, max(1, min(3, cfg["fill_factor"] * cfg["event_per_zone"] - 1)))
+        mem_keys = []
         for j in range(m):
             k = (1 + j) if low else (900 + j)
+            mem_keys.append(k)
             script.append(("cmd", f'STORE t FOR c{hot} PAYLOAD {{"k": {k}, "g": "x"}}')); evs.append({"k": k})
         qs, qtexts = [], []
         for n_ in (1, m, m + 1):
@@ -618,6 +621,7 @@ def _eng_cases(rng, tier):
         script += [("quiesce",), ("cmd", "QUERY t")] + _qblock(qtexts)
         script += [("cmd", "FLUSH"), ("quiesce",), ("cmd", "QUERY t")] + _qblock(qtexts)
         out.append({"kind": "engine", "line": "", "cfg": cfg, "script": [list(x) for x in script], "evs": evs, "qs": qs, "qtexts": qtexts,
+                    "mem_keys": mem_keys,
                     "show": f"engine topk-unflushed-shard {cfg}: {len(evs)} events, " + "; ".join(qtexts)})
     return out
 
@@ -750,13 +754,26 @@ def classify(c, impl):
             bases = [i for i, st in enumerate(c["script"]) if st[0] == "cmd" and st[1] == "QUERY t"]
             for (run, j, w, keys) in f:
                 spec = c["qs"][j]
-                if "ORDER BY k" not in w or spec[0] != "ord" or not plans.get((run, j)):
+                if "ORDER BY" not in w or spec[0] not in ("ord", "ordf") or not plans.get((run, j)):
                     return None
                 base_rows = impl["res"][bases[-2] if run == 1 else bases[-1]]["rows"]
-                pool = [x["k"] for x in base_rows if spec[4] is None or x["k"] >= spec[4]]
+                if spec[0] == "ordf":
+                    # ORDER BY <field> LIMIT n of the passive-buffer scenario; the failure tuple carries the k column,
+                    # so only ORDER BY k can be judged here - other fields stay violations
+                    if spec[4] != "k":
+                        return None
+                    pool = [x["k"] for x in base_rows]
+                else:
+                    pool = [x["k"] for x in base_rows if spec[4] is None or x["k"] >= spec[4]]
                 want = len(pool[spec[3]:] if spec[2] is None else pool[spec[3]:spec[3] + spec[2]])
                 import collections as _c
                 if keys != sorted(keys, reverse=bool(spec[1])) or len(keys) > want or (_c.Counter(keys) - _c.Counter(pool)):
+                    return None
+                # the pre-selection can only leave out FLUSHED rows: a row that is certainly still in memory (scenario
+                # knowledge) and belongs to the slice must be in the answer
+                exp = sorted(pool, reverse=bool(spec[1]))
+                exp = exp[spec[3]:] if spec[2] is None else exp[spec[3]:spec[3] + spec[2]]
+                if run == 1 and any(k in exp and k not in keys for k in c.get("mem_keys", [])):
                     return None
             return "OrderedLimitWrongSlice"
         for (run, j, w, keys) in f:
